@@ -3,15 +3,19 @@
     Invariant [SI cc st]: [basic]; while the process is alive [live st] (renewMap entries point at running goroutines
     until Close, every running goroutine is filed in renewMap under its hold's name, after Close nothing runs, the
     goroutine of an unlocked hold has returned); and for every hold j [tr_ok j st] (the trace satisfies [p_stop j], and
-    once [TUnlockRet j] is in the trace the hold is flagged unlocked).
+    once [TUnlockCall j] or [TUnlockRet j] is in the trace the hold is flagged unlocked).
+
+    An Unlock run in steps: [IUnlockBegin j] is [IUnlock j] without the RPC and with [TUnlockCall j] in place of
+    [TUnlockRet j] (same argument: [live_unlock]); [IUnlockSend j] is quiet ([SI_frame]); [IUnlockEnd j] appends
+    [TUnlockRet j] to the trace of a hold that is flagged already ([misuse_at]).
 
     Contents
-      stop_auto        sa_step fold_quiet
+      stop_auto        sa_step fold_quiet fold_nobyj
       running          running_ext le_back sim_back
       rmove            [rmove st st']: goroutines neither start nor return, the events appended are Renew RPCs /
                        renew panics of goroutines running in [st]; per primitive <prim>_rmove
       trace suffixes   unlock_rpc_trace acquire_answered_trace stop_all_sleep
-      steps            SI_quiet SI_acquire SI_unlock SI_close SI_step
+      steps            SI_quiet SI_acquire live_unlock SI_unlock SI_unlock_begin SI_unlock_send SI_unlock_end SI_close SI_step
       t_stop *)
 From Coq Require Import Lia ZifyBool ZifyNat ZifyN.
 From Ldlm Require Import Model.Base Model.Err Model.Seq Model.Client Gen.Consts
@@ -29,13 +33,14 @@ Definition byj (j : nat) (e : tev) : bool :=
   | TCrash c _ => (crash_by c =? j)%nat
   | _ => false
   end.
+(** the events after which [stop_auto j] watches: Unlock of hold j has begun (run in steps) / has returned *)
 Definition unlret (j : nat) (e : tev) : bool :=
-  match e with TUnlockRet i _ => (i =? j)%nat | _ => false end.
+  match e with TUnlockCall i _ | TUnlockRet i _ => (i =? j)%nat | _ => false end.
 
 Lemma sa_step j acc e :
   stop_auto j acc e = (fst acc || unlret j e, snd acc && negb (fst acc && byj j e)).
 Proof.
-  destruct acc as [seen ok]. destruct e as [k| k| | | | | |]; cbn; try destruct k; cbn;
+  destruct acc as [seen ok]. destruct e as [k| k| | | | | | |]; cbn; try destruct k; cbn;
     rewrite ?orb_false_r, ?andb_false_r, ?andb_true_r; done.
 Qed.
 
@@ -48,6 +53,16 @@ Proof.
   assert (seen && byj j e = false) as ->.
   { destruct seen; [|done]. specialize (Hb eq_refl). apply Forall_cons in Hb as [-> _]. done. }
   cbn [negb]. rewrite andb_true_r. apply IH; [done|]. intros Hs. specialize (Hb Hs). by apply Forall_cons in Hb as [_ ?].
+Qed.
+
+(** events that are no Renew and no panic of hold j: only [seen] can move *)
+Lemma fold_nobyj j evs : ∀ seen ok,
+  Forall (λ e, byj j e = false) evs →
+  fold_left (stop_auto j) evs (seen, ok) = (seen || existsb (unlret j) evs, ok).
+Proof.
+  induction evs as [|e evs IH]; intros seen ok Hb; cbn [fold_left existsb]; [by rewrite orb_false_r|].
+  apply Forall_cons in Hb as [Hb1 Hb2]. rewrite sa_step. cbn [fst snd].
+  rewrite Hb1, andb_false_r. cbn [negb]. rewrite andb_true_r, (IH _ _ Hb2), orb_assoc. done.
 Qed.
 
 (** * [running] *)
@@ -90,7 +105,7 @@ Definition ren_ev (st : cstate) (e : tev) : Prop :=
   match e with
   | TRpc k i _ _ _ _ _ _ | TRpcFail k i _ => k = KRenew → running st i
   | TCrash c _ => running st (crash_by c)
-  | TUnlockRet _ _ => False
+  | TUnlockCall _ _ | TUnlockRet _ _ => False
   | _ => True
   end.
 
@@ -245,7 +260,7 @@ Qed.
 Lemma unlj_sim st st' j : Forall2 hold_sim (cs_holds st) (cs_holds st') → unlj j st → unlj j st'.
 Proof. intros F. apply unlj_le. eapply Forall2_impl; [exact F|apply hold_sim_le]. Qed.
 
-(** events that are neither [TUnlockRet], nor a Renew, nor a panic *)
+(** events that are neither [TUnlockCall] / [TUnlockRet], nor a Renew, nor a panic *)
 Definition plain (e : tev) : Prop := ∀ j, unlret j e = false ∧ byj j e = false.
 
 Lemma tr_ok_app j st st' evs :
@@ -277,9 +292,21 @@ Proof.
   intros [Hs|Hs]%orb_true_iff; [by apply H2|]. apply Nat.eqb_eq in Hs as <-. exact Hu.
 Qed.
 
+(** events none of which is a Renew / a panic of hold j; if one of them is [TUnlockCall j] / [TUnlockRet j] the hold is
+    flagged afterwards *)
+Lemma tr_ok_app_unl j st st' evs :
+  tr_ok j st → cs_trace st' = cs_trace st ++ evs → (unlj j st → unlj j st') →
+  Forall (λ e, byj j e = false) evs → (existsb (unlret j) evs = true → unlj j st') → tr_ok j st'.
+Proof.
+  unfold tr_ok. intros [H1 H2] -> Hm Hb Hu. rewrite fold_left_app.
+  destruct (fold_left (stop_auto j) (cs_trace st) (false, true)) as [seen ok]. cbn [fst snd] in *.
+  rewrite fold_nobyj by done. cbn [fst snd]. split; [done|].
+  intros [Hs|Hs]%orb_true_iff; auto.
+Qed.
+
 Lemma ren_ev_quiet st j e : ren_ev st e → unlret j e = false ∧ (¬ running st j → byj j e = false).
 Proof.
-  destruct e as [k i ? ? ? ? ? ?|k i ?| | |c ?| | |]; cbn; try done.
+  destruct e as [k i ? ? ? ? ? ?|k i ?| | | |c ?| | |]; cbn; try done.
   - intros H. split; [done|]. intros Hn. destruct k; try done. destruct (Nat.eqb_spec i j) as [->|]; [|done].
     destruct Hn. by apply H.
   - intros H. split; [done|]. intros Hn. destruct k; try done. destruct (Nat.eqb_spec i j) as [->|]; [|done].
@@ -441,6 +468,72 @@ Proof.
   eexists [_]. split; [done|]. by apply Forall_singleton.
 Qed.
 
+(** a state that differs in the trace (and the like) only *)
+Lemma live_ext st st' :
+  cs_holds st' = cs_holds st → cs_map st' = cs_map st → cs_closed st' = cs_closed st → live st → live st'.
+Proof.
+  intros Eh Em Ec L. pose proof (running_ext _ _ Eh) as R. constructor.
+  - rewrite Ec, Em. intros Hcl n i Hm. apply R. by apply (l_m2 _ L Hcl n).
+  - intros i Hr%R. rewrite Eh, Em. by apply (l_m3 _ L).
+  - rewrite Ec. intros Hcl i Hr%R. by apply (l_m4 _ L Hcl i).
+  - rewrite Eh. intros j h Hh Hu Hr%R. by apply (l_u _ L j h).
+Qed.
+
+Lemma unlock_rpc_rmove j h st1 : rmove st1 (unlock_rpc j h st1).
+Proof.
+  unfold unlock_rpc. destruct (cs_closed st1).
+  { apply rmove_emit; [apply rmove_refl|done]. }
+  destruct (srv_event _ _) as [srv' outs].
+  destruct (last outs) as [[[| |]| | | | | |]|]; try (eapply rmove_ext; [apply rmove_refl|done..]).
+  apply rmove_emit; [|done]. eapply rmove_ext; [apply rmove_refl|done..].
+Qed.
+
+Lemma do_unlock_send_rmove j st : rmove st (do_unlock_send j st).
+Proof.
+  rewrite do_unlock_send_eq. destruct (cs_holds st !! j) as [h|]; [|apply rmove_refl].
+  destruct (h_locked h); cbn [negb]; [apply unlock_rpc_rmove|apply rmove_refl].
+Qed.
+
+(** [live] after maybeRemoveRenewer + the ghost flag, shared by [IUnlock j0] and [IUnlockBegin j0]: [st1] is the state
+    after [unlock_stop] (see [unlock_stop_spec]), [st'] the state in which hold j0 is flagged *)
+Lemma live_unlock cc j0 h st st1 st' :
+  basic cc st → live st → cs_closed st = false → cs_holds st !! j0 = Some h →
+  Forall2 hold_sim (cs_holds st) (cs_holds st1) →
+  (∀ i, running st i → cs_map st !! h_name h ≠ Some i → running st1 i) →
+  (∀ i, cs_map st !! h_name h = Some i → ¬ running st1 i) →
+  (∀ i, cs_holds st' !! i =
+        if decide (j0 = i) then (λ h, h <| h_unl := true |>) <$> cs_holds st1 !! i else cs_holds st1 !! i) →
+  cs_map st' = (if cc_noauto cc then cs_map st else delete (h_name h) (cs_map st)) →
+  cs_closed st' = false →
+  Forall2 hold_le (cs_holds st) (cs_holds st') →
+  live st'.
+Proof.
+  intros B L Hcl Hh F1 W1 X1 K3 Em Ecl LE.
+  assert (∀ i, running st' i ↔ running st1 i) as Hrun.
+  { intros i. unfold running, ren_of. rewrite K3. destruct (decide (j0 = i)); [|done].
+    destruct (cs_holds st1 !! i); done. }
+  assert (∀ i, running st' i → running st i) as Hbk.
+  { intros i Hr%Hrun. by apply (sim_back _ _ F1). }
+  constructor.
+  - intros _ n i. rewrite Em. destruct (cc_noauto cc) eqn:Hna.
+    { rewrite (b_noauto _ _ B Hna), lookup_empty. done. }
+    intros [Hne Hm]%lookup_delete_Some. apply Hrun, W1; [by apply (l_m2 _ L Hcl n)|].
+    intros Hm'. destruct (b_map _ _ B _ _ Hm) as (h1 & Hh1 & N1 & _). destruct (b_map _ _ B _ _ Hm') as (h2 & Hh2 & N2 & _).
+    congruence.
+  - intros i Hr. pose proof (Hbk i Hr) as Hr0. destruct (l_m3 _ L i Hr0) as (hi & Hhi & Hmi).
+    destruct (Forall2_lookup_l _ _ _ _ _ LE Hhi) as (hi' & Hhi' & (Si & _)). apply static_eq in Si as (Ni & _).
+    exists hi'. split; [done|]. rewrite Em, Ni. destruct (cc_noauto cc) eqn:Hna.
+    { rewrite (b_noauto _ _ B Hna), lookup_empty in Hmi. done. }
+    rewrite lookup_delete_ne; [done|]. intros Hx. rewrite <- Hx in Hmi. apply (X1 i Hmi). by apply Hrun.
+  - congruence.
+  - intros j h' Hh' Hu' Hr. pose proof (Hbk j Hr) as Hr0. destruct (decide (j0 = j)) as [<-|Hne].
+    + destruct (l_m3 _ L j0 Hr0) as (h0 & Hh0 & Hm0). rewrite Hh in Hh0. injection Hh0 as <-.
+      apply (X1 j0 Hm0). by apply Hrun.
+    + rewrite K3, decide_False in Hh' by done.
+      destruct (Forall2_lookup_r _ _ _ _ _ F1 Hh') as (hj & Hhj & [_ U]%sim_name).
+      apply (l_u _ L j hj); [done|congruence|done].
+Qed.
+
 Lemma SI_unlock cc j0 st :
   SI cc st → cs_crashed st = None → cs_closed st = false →
   (∀ h, cs_holds st !! j0 = Some h → h_locked h = true → cc_noauto cc = false →
@@ -466,36 +559,68 @@ Proof.
   assert (cs_map st' = if cc_noauto cc then cs_map st else delete (h_name h) (cs_map st)) as Em.
   { subst st'. cbn. by rewrite M3, R3. }
   assert (cs_closed st' = false) as Ecl. { subst st'. cbn. by rewrite Cl3, R5. }
-  assert (∀ i, running st' i ↔ running st1 i) as Hrun.
-  { intros i. unfold running, ren_of. rewrite Eh, K3, R2. destruct (decide (j0 = i)); [|done].
-    destruct (cs_holds st1 !! i); done. }
-  assert (∀ i, running st' i → running st i) as Hbk.
-  { intros i Hr%Hrun. by apply (sim_back _ _ F1). }
   constructor; [done| |].
-  - intros _. constructor.
-    + intros _ n i. rewrite Em. destruct (cc_noauto cc) eqn:Hna.
-      { rewrite (b_noauto _ _ B Hna), lookup_empty. done. }
-      intros [Hne Hm]%lookup_delete_Some. apply Hrun, W1; [by apply (l_m2 _ L Hcl n)|].
-      intros Hm'. destruct (b_map _ _ B _ _ Hm) as (h1 & Hh1 & N1 & _). destruct (b_map _ _ B _ _ Hm') as (h2 & Hh2 & N2 & _).
-      congruence.
-    + intros i Hr. pose proof (Hbk i Hr) as Hr0. destruct (l_m3 _ L i Hr0) as (hi & Hhi & Hmi).
-      destruct (Forall2_lookup_l _ _ _ _ _ LE Hhi) as (hi' & Hhi' & (Si & _)). apply static_eq in Si as (Ni & _).
-      exists hi'. split; [done|]. rewrite Em, Ni. destruct (cc_noauto cc) eqn:Hna.
-      { rewrite (b_noauto _ _ B Hna), lookup_empty in Hmi. done. }
-      rewrite lookup_delete_ne; [done|]. intros Hx. rewrite <- Hx in Hmi. apply (X1 i Hmi). by apply Hrun.
-    + congruence.
-    + intros j h' Hh' Hu' Hr. pose proof (Hbk j Hr) as Hr0. destruct (decide (j0 = j)) as [<-|Hne].
-      * destruct (l_m3 _ L j0 Hr0) as (h0 & Hh0 & Hm0). rewrite Hh in Hh0. injection Hh0 as <-.
-        apply (X1 j0 Hm0). by apply Hrun.
-      * rewrite Eh, K3, R2 in Hh'. rewrite decide_False in Hh' by done.
-        destruct (Forall2_lookup_r _ _ _ _ _ F1 Hh') as (hj & Hhj & [_ U]%sim_name).
-        apply (l_u _ L j hj); [done|congruence|done].
+  - intros _. apply (live_unlock cc j0 h st st1 st'); try done.
+    intros i. by rewrite Eh, K3, R2.
   - intros j. rewrite Est. apply tr_ok_emit_unlret.
     + apply (tr_ok_plain j st st3 evs); [apply S| | |done].
       * rewrite T3, T2, T1. done.
       * apply unlj_le. by rewrite <- Eh.
     + destruct (Forall2_lookup_l _ _ _ _ _ F1 Hh) as (h1 & Hh1 & _).
       exists (h1 <| h_unl := true |>). split; [|done]. rewrite K3, R2, decide_True, Hh1 by done. done.
+Qed.
+
+(** ** Unlock run in steps *)
+
+(** the first step: [TUnlockCall j0], maybeRemoveRenewer, and hold j0 is flagged at once *)
+Lemma SI_unlock_begin cc j0 st :
+  SI cc st → cs_crashed st = None → cs_closed st = false →
+  (∀ h, cs_holds st !! j0 = Some h → h_locked h = true → cc_noauto cc = false →
+        ∀ i, cs_map st !! h_name h = Some i → in_renew st i = false) →
+  SI cc (do_unlock_begin cc j0 st).
+Proof.
+  intros S Hc Hcl Hsd. pose proof (si_live _ _ S Hc) as L. pose proof (si_basic _ _ S) as B.
+  pose proof (basic_do_unlock_begin cc j0 st B) as B'. pose proof (do_unlock_begin_le cc j0 st) as LE.
+  remember (do_unlock_begin cc j0 st) as st' eqn:Est. rewrite do_unlock_begin_eq in Est.
+  destruct (cs_holds st !! j0) as [h|] eqn:Hh; [|by subst].
+  destruct (h_locked h) eqn:Hl; [|by subst]. cbn [negb] in Est. cbv zeta in Est.
+  set (e := TUnlockCall j0 (now st)) in *. set (st0 := emit e st) in *.
+  destruct (unlock_stop_spec cc (h_name h) st0) as (C1 & T1 & Cl1 & F1 & W1 & X1);
+    [by apply basic_emit|by apply (live_ext st)|done|done| |].
+  { intros Hna i Hm. by apply (Hsd h). }
+  pose proof (unlock_stop_map cc (h_name h) st0) as M1.
+  set (st1 := unlock_stop cc (h_name h) st0) in *.
+  rewrite C1 in Est.
+  pose proof (mark_unl_holds j0 st1) as K3. destruct (mark_unl_other j0 st1) as (_ & M3 & C3 & Cl3 & _ & T3 & _).
+  rewrite <- Est in *.
+  constructor; [done| |].
+  - intros _. apply (live_unlock cc j0 h st st1 st'); try done.
+    + by rewrite M3, M1.
+    + by rewrite Cl3.
+  - intros j. apply (tr_ok_app_unl j st st' [e]); [apply S| |by apply unlj_le| |].
+    + by rewrite T3, T1.
+    + by apply Forall_singleton.
+    + cbn. rewrite orb_false_r. intros <-%Nat.eqb_eq.
+      destruct (Forall2_lookup_l _ _ _ _ _ F1 Hh) as (h1 & Hh1 & _).
+      exists (h1 <| h_unl := true |>). split; [|done]. rewrite K3, decide_True by done.
+      change (cs_holds st1 !! j0 = Some h1) in Hh1. by rewrite Hh1.
+Qed.
+
+(** the second step: the Unlock RPC, quiet for [stop_auto] *)
+Lemma SI_unlock_send cc j0 st : SI cc st → cs_crashed st = None → SI cc (do_unlock_send j0 st).
+Proof.
+  intros S Hc. eapply SI_frame; [done|done|apply (do_unlock_send_frame false (λ _, False))|apply do_unlock_send_rmove].
+Qed.
+
+(** the third step: [TUnlockRet j0]; the hold has been flagged since the first step *)
+Lemma SI_unlock_end cc j0 st : SI cc st → unlj j0 st → SI cc (do_unlock_end j0 st).
+Proof.
+  intros S Hu. rewrite do_unlock_end_eq. destruct (cs_holds st !! j0) as [h|]; [|done].
+  destruct (h_locked h); cbn [negb]; [|done].
+  constructor.
+  - apply basic_emit, S.
+  - intros Hc. apply (live_ext st); try done. by apply (si_live _ _ S).
+  - intros j. apply tr_ok_emit_unlret; [apply S|done].
 Qed.
 
 (** ** Close *)
@@ -587,6 +712,12 @@ Proof.
   - destruct (Hmain eq_refl) as [Hcl _]. by apply SI_acquire.
   - destruct (Hmain eq_refl) as [Hcl Ha]. apply SI_unlock; try done.
     intros h Hh Hl Hna i Hm. unfold stopdrop_at in Hsd. rewrite Ha, Hna, Hh, Hl, Hm in Hsd. exact Hsd.
+  - destruct (Hmain eq_refl) as [Hcl Ha]. apply SI_unlock_begin; try done.
+    intros h Hh Hl Hna i Hm. unfold stopdrop_at in Hsd. rewrite Ha, Hna, Hh, Hl, Hm in Hsd. exact Hsd.
+  - by apply SI_unlock_send.
+  - apply SI_unlock_end; [done|].
+    unfold misuse_at in Hmis. apply orb_false_elim in Hmis as [_ Hmis].
+    destruct (cs_holds st !! j) as [h|] eqn:Hh; [|done]. exists h. split; [done|]. by apply negb_false_iff.
   - destruct (Hmain eq_refl) as [Hcl Ha]. apply SI_close; try done.
     unfold stopdrop_at in Hsd. rewrite Ha in Hsd. destruct (cc_noauto cc) eqn:Hna; [|exact Hsd].
     rewrite (b_noauto _ _ (si_basic _ _ S) Hna), map_to_list_empty. done.
